@@ -495,3 +495,160 @@ if __name__ == "__main__":
     import sys
     m = gen_model(int(sys.argv[1]) if len(sys.argv) > 1 else 1)
     print(render(m)[0])
+
+
+# ---------------------------------------------------------------------------------------------
+# C++ mode
+# ---------------------------------------------------------------------------------------------
+
+GROUP_DOC_CPP = """/**
+ * Trait group potentially implementing `%s` traits.
+ *
+ * Optional traits are not implemented here, however. There are numerous conversion
+ * functions available for safely retrieving a concrete collection of traits.
+ *
+ * `check_impl_` functions allow to check if the object implements the wanted traits.
+ *
+ * `into_impl_` functions consume the object and produce a new final structure that
+ * keeps only the required information.
+ *
+ * `cast_impl_` functions merely check and transform the object into a type that can
+ *be transformed back into `%s` without losing data.
+ *
+ * `as_ref_`, and `as_mut_` functions obtain references to safe objects, but do not
+ * perform any memory transformations either. They are the safest to use, because
+ * there is no risk of accidentally consuming the whole object.
+ */
+"""
+
+CPP_CONT = {"Box": "CBox<void>", "Mut": "void *", "Ref": "const void *"}
+
+
+def cpp_type(ty, model):
+    cb = model.get("callback_payload", "ArgPair")
+    if ty == "struct ArgPair":
+        return "ArgPair"
+    if ty == "struct CSliceRef_u8":
+        return "CSliceRef<uint8_t>"
+    if ty.startswith("struct Callback_c_void__"):
+        return "OpaqueCallback<%s>" % ("ArgPair" if cb == "ArgPair" else "uint64_t")
+    return ty
+
+
+def cpp_model(model):
+    """The part of a model that has a C++ rendering here: reference-counted context only (a user
+    context structure has no clone()/drop() members for the generated containers to call, and how
+    cbindgen spells the no-context type in C++ is not known here); groups keep the traits without
+    real temporaries (the group-container pattern of codegen/cpp.rs has no place for the others)."""
+    m = dict(model)
+    m["contexts"] = ["CArc_c_void"]
+    m["no_context"] = False
+    real = {t["name"] for t in model["traits"] if t.get("rettmp_real")}
+    groups = []
+    for g in model.get("groups", []):
+        tr = [t for t in g["traits"] if t not in real]
+        if tr:
+            groups.append(dict(g, traits=tr, ctxs=["CArc_c_void"]))
+    m["groups"] = groups
+    m["generic_objs"] = False
+    m["leftover"] = False
+    m["lang"] = "cpp"
+    return m
+
+
+def cpp_vtbl_lines(funcs, model, clone=False):
+    lines = []
+    for (fname, kind, args, ret) in funcs:
+        recv = {"ref": "const CGlueC *cont", "mut": "CGlueC *cont", "own": "CGlueC cont"}[kind]
+        al = [recv]
+        for a in args:
+            ct = cpp_type(a[0], model)
+            al.append("%s%s%s" % (ct, "" if ct.endswith("*") else " ", a[1]))
+        rt = "CGlueC" if clone else cpp_type(ret, model)
+        lines.append("    %s%s(*%s)(%s);" % (rt, "" if rt.endswith("*") else " ", fname, ", ".join(al)))
+    return lines
+
+
+def render_cpp(model):
+    """cbindgen's C++ output for the model (templates once, instantiations as aliases)."""
+    m = cpp_model(model)
+    out = []
+    w = out.append
+    foreign = []
+    w("#include <cstdarg>\n#include <cstdint>\n#include <cstdlib>\n#include <ostream>\n#include <new>\n")
+    w("template<typename T = void>\nstruct MaybeUninit;\n")
+    if m["foreign_early"]:
+        w("/**\n * A user structure unrelated to CGlue.\n */\nstruct UserPoint {\n    int32_t x;\n    int32_t y;\n};\n")
+        foreign.append("struct UserPoint {")
+    w("/**\n * FFI-Safe Arc\n */\ntemplate<typename T>\nstruct CArc {\n    const T *instance;\n    const T *(*clone_fn)(const T*);\n    void (*drop_fn)(const T*);\n};\n")
+    w("/**\n * FFI-safe box\n */\ntemplate<typename T>\nstruct CBox {\n    T *instance;\n    void (*drop_fn)(T*);\n};\n")
+    w("/**\n * A two-field argument structure.\n */\nstruct ArgPair {\n    uint32_t a;\n    uint64_t b;\n};\n")
+    w("/**\n * Wrapper around const slices.\n */\ntemplate<typename T>\nstruct CSliceRef {\n    const T *data;\n    uintptr_t len;\n};\n")
+    w("/**\n * FFI-safe callback.\n */\ntemplate<typename T, typename F>\nstruct Callback {\n    T *context;\n    bool (*func)(T*, F);\n};\n")
+    w("template<typename T>\nusing OpaqueCallback = Callback<void, T>;\n")
+    if m["foreign_names"]:
+        w("/**\n * Not a CGlue vtable, despite the name.\n */\nstruct UserVtblLike {\n    void (*callback)(void *ctx);\n    uintptr_t RetTmp_count;\n};\n")
+        foreign.append("struct UserVtblLike {")
+    tmap = {t["name"]: t for t in m["traits"]}
+    for t in m["traits"]:
+        T = t["name"]
+        if t.get("rettmp_real"):
+            w(REAL_TMP_DOC + "template<typename CGlueCtx>\nstruct %sRetTmp {\n    uint64_t %s_slot[2];\n};\n" % (T, T.lower()))
+        else:
+            w("\n" + ZST_DOC + "template<typename CGlueCtx = void>\nstruct %sRetTmp;\n" % T)
+    for g in m["groups"]:
+        G = g["name"]
+        tmp = "".join("    %sRetTmp<CGlueCtx> ret_tmp_%s;\n" % (tn, tn.lower()) for tn in g["traits"])
+        w("template<typename CGlueInst, typename CGlueCtx>\nstruct %sContainer {\n    CGlueInst instance;\n    CGlueCtx context;\n%s};\n" % (G, tmp))
+    for t in m["traits"]:
+        w(VTBL_DOC % t["name"] + "template<typename CGlueC>\nstruct %sVtbl {\n%s\n};\n" % (t["name"], "\n".join(cpp_vtbl_lines(t["funcs"], m))))
+    if any(g.get("clone") for g in m["groups"]):
+        w(VTBL_DOC % "Clone" + "template<typename CGlueC>\nstruct CloneVtbl {\n    CGlueC (*clone)(const CGlueC *cont);\n};\n")
+    for g in m["groups"]:
+        G = g["name"]
+        vf = ["    const %sVtbl<%sContainer<CGlueInst, CGlueCtx>> *vtbl_%s;" % (tn, G, tn.lower()) for tn in g["traits"]]
+        if g.get("clone"):
+            vf.append("    const CloneVtbl<%sContainer<CGlueInst, CGlueCtx>> *vtbl_clone;" % G)
+        w(GROUP_DOC_CPP % (" + ".join("%s < >" % tn for tn in g["traits"]), G) + "template<typename CGlueInst, typename CGlueCtx>\nstruct %s {\n%s\n    %sContainer<CGlueInst, CGlueCtx> container;\n};\n" % (G, "\n".join(vf), G))
+    w(CONT_DOC + "template<typename T, typename C, typename R>\nstruct CGlueObjContainer {\n    T instance;\n    C context;\n    R ret_tmp;\n};\n")
+    w(OBJ_DOC + "template<typename T, typename V, typename C, typename R>\nstruct CGlueTraitObj {\n    const V *vtbl;\n    CGlueObjContainer<T, C, R> container;\n};\n")
+    for t in m["traits"]:
+        T = t["name"]
+        w("/**\n * Base CGlue trait object for trait %s.\n */\ntemplate<typename CGlueInst, typename CGlueCtx>\nusing %sBase = CGlueTraitObj<CGlueInst, %sVtbl<CGlueObjContainer<CGlueInst, CGlueCtx, %sRetTmp<CGlueCtx>>>, CGlueCtx, %sRetTmp<CGlueCtx>>;\n" % (T, T, T, T, T))
+        w("/**\n * CtxBoxed CGlue trait object for trait %s with context.\n */\ntemplate<typename CGlueT, typename CGlueCtx>\nusing %sBaseCtxBox = %sBase<CBox<CGlueT>, CGlueCtx>;\n" % (T, T, T))
+        w("/**\n * Boxed CGlue trait object for trait %s with a [`CArc`](cglue::arc::CArc) reference counted context.\n */\ntemplate<typename CGlueT, typename CGlueC>\nusing %sBaseArcBox = %sBaseCtxBox<CGlueT, CArc<CGlueC>>;\n" % (T, T, T))
+        w("/**\n * Opaque Boxed CGlue trait object for trait %s with a [`CArc`](cglue::arc::CArc) reference counted context.\n */\nusing %sArcBox = %sBaseArcBox<void, void>;\n" % (T, T, T))
+    w("struct UserTail {\n    uint8_t bytes[4];\n};\n")
+    foreign.append("struct UserTail {")
+    w("extern \"C\" {\n")
+    w("void user_free_function(UserTail *tail, uintptr_t n);\n")
+    foreign.append("void user_free_function(UserTail *tail, uintptr_t n);")
+    t0 = m["traits"][0]
+    w("int32_t create_%s(CArc<void> *lib, MaybeUninit<%sArcBox> *out);\n" % (t0["name"].lower(), t0["name"]))
+    foreign.append("int32_t create_%s(" % t0["name"].lower())
+    w("} // extern \"C\"\n")
+    return "\n".join(out), foreign
+
+
+def object_types_cpp(model):
+    """Instantiations a C++ user can hold, with their C++ spellings."""
+    m = cpp_model(model)
+    out = []
+    tmap = {t["name"]: t for t in m["traits"]}
+    for t in m["traits"]:
+        T = t["name"]
+        for cont in t["conts"]:
+            inst = CPP_CONT[cont]
+            cn = "CGlueObjContainer<%s, CArc<void>, %sRetTmp<CArc<void>>>" % (inst, T)
+            out.append({"kind": "obj", "name": T, "cont": cont, "ctx": "CArc_c_void", "struct": "%sBase<%s, CArc<void>>" % (T, inst), "container": cn,
+                        "vtbls": [{"trait": T, "type": "%sVtbl<%s>" % (T, cn), "field": "vtbl", "funcs": t["funcs"]}], "ret_tmp": ["ret_tmp"] if t.get("rettmp_real") else []})
+    for g in m["groups"]:
+        G = g["name"]
+        for cont in g["conts"]:
+            inst = CPP_CONT[cont]
+            cn = "%sContainer<%s, CArc<void>>" % (G, inst)
+            vt = [{"trait": tn, "type": "%sVtbl<%s>" % (tn, cn), "field": "vtbl_" + tn.lower(), "funcs": tmap[tn]["funcs"]} for tn in g["traits"]]
+            if g.get("clone"):
+                vt.append({"trait": "Clone", "type": "CloneVtbl<%s>" % cn, "field": "vtbl_clone", "funcs": [("clone", "ref", [], cn)]})
+            out.append({"kind": "group", "name": G, "cont": cont, "ctx": "CArc_c_void", "struct": "%s<%s, CArc<void>>" % (G, inst), "container": cn, "vtbls": vt, "ret_tmp": []})
+    return out
